@@ -1,6 +1,8 @@
 (* C08 — Addresses in use by another host are not handed out.  Statements only. *)
 From PSA Require Import gen.GoFacts model.Bytes model.Clients model.Ipdb model.Dhcp spec.SpecTable spec.SpecIpdb model.Server
   proofs.TableProofs proofs.ServerProofs.
+From PSA Require Import spec.Monitors.
+From PSA Require Import spec.WireHyps spec.WireExample proofs.WireProofs proofs.WireInv proofs.WireLease proofs.WireSnap proofs.WireHypsProofs proofs.WireExampleProofs.
 Open Scope N_scope.
 
 (* only answers whose sender address equals the probed address count; a foreign answer inside the probe
@@ -30,6 +32,29 @@ Theorem C08_request_nak : forall c src dst o lease,
   request_verdict c src dst o (Some lease) false = RNak.
 Proof. exact request_nak_on_conflict. Qed.
 Print Assumptions C08_request_nak.
+
+(* ON THE WIRE, over whole histories: on every accepted history (at most one ARP responder per address in a round) mon_C08 holds -
+   an address for which a foreign hardware address answers inside the probe window is not offered to a client without binding
+   and is never acknowledged; a REQUEST by the holder of x for x is refused on account of ARP only if a foreign host did answer
+   for x in that round (answers about other addresses, from the client itself or after the window do not count); and every reply
+   leaves within the bounded time 50 ms + (addresses of the dynamic range + 2) probes after its request arrived.
+   The acceptor (model/Server.v) is what every run compares the implementation with, round by round (tag 101); the premises
+   are boolean conditions (spec/WireHyps.v) evaluated on every generated history (tag 220, Cxx_premises below); the rounds are
+   sequential with a table listing after each (interleavings: the theorems over operation histories above). *)
+Theorem C08_on_the_wire : forall c h, cfg_wire_ok c -> cfg_srv_ok c -> durations_ok c -> Forall wf_round h -> snap_times 0%Z h ->
+  accepted c h -> mon_C08 c h = true.
+Proof. exact accepted_history_c08. Qed.
+Print Assumptions C08_on_the_wire.
+
+Theorem C08_premises : forall c h, wire_hyps c h = true -> wire_premises c h.
+Proof. exact wire_hyps_premises. Qed.
+Print Assumptions C08_premises.
+
+(* the premises hold of, and the acceptor accepts, a recorded history of the real server (OFFER, ACK, NAK on an ARP conflict, silent rounds) *)
+Theorem C08_wire_nonvacuous : exists c h, wire_example = Some (c, h) /\ wire_premises c h /\ accepted c h /\
+  length h = 6%nat /\ length (events c h) = 2%nat /\ length (flat_map r_outs h) = 3%nat.
+Proof. exact wire_example_full. Qed.
+Print Assumptions C08_wire_nonvacuous.
 
 Example C08_nonvacuous :
   probe_outcome [{| ar_ip := 12; ar_mac := [9]; ar_delay := 150000000 |}] [1] 12 = (false, 150000000%Z) /\
